@@ -112,10 +112,16 @@ def run(ctx):
         ctx.tlc_mc('Push_MC', 'Push_MCr.cfg', workers=4, timeout=14400)
         ctx.tlc_mc('Push_MC', 'Push_MC2.cfg', workers=4, timeout=14400)
     # ... and the model can tell: the as-found mechanisms are refuted (anti-vacuity of the invariants)
-    for cfg in ('Push_MCrace.cfg', 'Push_MCzero.cfg'):
-        r = ctx.tlc_mc('Push_MC', cfg, workers=2, timeout=3600, expect_violation=True, count=False)
-        if r['violation'] != 'Ordered':
-            raise vlib.Broken('%s: the as-found mechanism is no longer refuted (violation=%s)' % (cfg, r['violation']))
+    orig_log = vlib.log
+    vlib.log = lambda *a: orig_log(*[str(x).replace('VIOLATION', '(expected) refuted:') for x in a])
+    try:
+        for cfg in ('Push_MCrace.cfg', 'Push_MCzero.cfg'):
+            r = ctx.tlc_mc('Push_MC', cfg, workers=2, timeout=7200, expect_violation=True, count=False)
+            if r['violation'] != 'Ordered':
+                raise vlib.Broken('%s: the as-found mechanism is no longer refuted (violation=%s)' % (cfg, r['violation']))
+            ctx.mc_runs[-1]['note'] = 'as-found mechanism, refutation expected (anti-vacuity of the invariants)'
+    finally:
+        vlib.log = orig_log
     ctx.extra['as_found_mechanisms_refuted'] = ['Push_MCrace.cfg', 'Push_MCzero.cfg']
     # 2. binding A
     b = vlib.build(DRIVER)
